@@ -43,6 +43,16 @@ def run(prop, tier, seed):
                 x['key'] = 'regress:%s|%s' % (pb['name'], x['key'])
             res.merge(r2)
             nprobe += 1
+    # known findings of this property: literal probe in its own process; prints KNOWN-FINDING while the defect is present
+    known, _fixed = runner.load_known()
+    for kf in known:
+        if kf['prop'] == prop and kf['witness'].endswith('.json'):
+            pb = json.load(open(os.path.join(build.VERIF, kf['witness'])))
+            r3 = engine.Result()
+            engine.run_literal(prop, exe, meta, engine.parse_ops(meta, pb['ops']), r3, two_monitors=True)
+            v.inconclusive += r3.inconclusive
+            if r3.violations:
+                v.known_hits.append('%s: %s [observed: %s]' % (kf['key'], pb['what'][:160], r3.violations[0]['key']))
     bykey = {}
     for x in res.violations:
         cur = bykey.get(x['key'])
